@@ -358,7 +358,7 @@ impl Plan for C18Plan {
         vec![
             "non-planted entropy values are random and may match short prefixes by chance; the oracle evaluates the reference address of whatever was printed, it never assumes they do not match".into(),
             "spellings the statement leaves open (no 0x, 0X…, empty) are accepted either way".into(),
-            "bounded liveness: once every entropy response is a match, the command exits within 16*(workers+2) scheduling steps under any schedule".into(),
+            "bounded liveness: once every entropy response is a match, the command exits within 64*(workers+2) scheduling steps and 2*(workers+2) further entropy requests under any schedule".into(),
         ]
     }
     fn components(&self) -> Value {
